@@ -1258,6 +1258,15 @@ void reb_integrator_whfast_part2(struct reb_simulation* const r){
         if (ri_whfast->keep_unsynchronized){
             memcpy(p_j,sync_pj,r->N*sizeof(struct reb_particle));
             free(sync_pj);
+            // The centre of mass of a variational configuration is advanced by two explicit half drifts, one in part1
+            // and one above. The copy above has just discarded the second one: redo it on the restored coordinates.
+            // (p_j[index].v is never changed by the Kepler, interaction or corrector steps.)
+            for (int v=0;v<r->N_var_config;v++){
+                const int index = r->var_config[v].index;
+                p_j[index].x += r->dt/2.*p_j[index].vx;
+                p_j[index].y += r->dt/2.*p_j[index].vy;
+                p_j[index].z += r->dt/2.*p_j[index].vz;
+            }
             ri_whfast->is_synchronized=0;
         }
     }
